@@ -53,12 +53,15 @@ def residual(i, cz):
     return (4 if i % 2 == 0 else -4) if cz == 2 else 4 * cz
 
 
-def rows_for(fls, a, b, phases=('climb', 'cruise', 'descent'), cz=0):
-    """Table rows [fl, tas, rocd, mass, fuel_flow] grouped by phase."""
+def rows_for(fls, a, b, phases=('climb', 'cruise', 'descent'), cz=0, cf=0, dt=0):
+    """Table rows [fl, tas, rocd, mass, fuel_flow] grouped by phase; the cruise rows lack the
+    cf lowest levels, the descent rows the dt highest ones."""
     out = {}
     for ph in phases:
         r = []
         for i, fl in enumerate(fls):
+            if (ph == 'cruise' and i < cf) or (ph == 'descent' and i >= len(fls) - dt):
+                continue
             for j in ((0, 1, 2) if ph != 'descent' else (1,)):
                 rc = float(rocd(ph, i, j, a)) + (residual(i, cz) * RESIDUAL_UNIT if ph == 'cruise' else 0.0)
                 r.append([float(fl), float(tas(ph, i)), rc, MASSES[j], float(ff(ph, i, j, b))])
@@ -107,11 +110,16 @@ def eval_case(case):
 
         c, o = case['c'], case['o']
         fls = c['fls']
-        key = (tuple(fls), c['a'], c['b'], c['cz'], c['ord'])
+        key = (tuple(fls), c['a'], c['b'], c['cz'], c['ord'], c['cf'], c['dt'])
         if key not in _cache:
-            r = rows_for(fls, c['a'], c['b'], cz=c['cz'])
+            r = rows_for(fls, c['a'], c['b'], cz=c['cz'], cf=c['cf'], dt=c['dt'])
             _cache[key] = PerformanceModel.from_data(model_data(listing(r, c['ord'])))
         pm = _cache[key]
+        # the level list of the queried phase
+        if c['ph'] == 'cruise':
+            fls = fls[c['cf']:]
+        elif c['ph'] == 'descent':
+            fls = fls[: len(fls) - c['dt']]
         n = len(fls)
         h = c['fl2']
         if h < 0:
@@ -136,7 +144,7 @@ def eval_case(case):
         else:
             mass = (MASSES[m2 // 2] + MASSES[m2 // 2 + 1]) / 2
         rule = {'climb': SimpleFlightRules.CLIMB, 'cruise': SimpleFlightRules.CRUISE, 'descent': SimpleFlightRules.DESCEND}[c['ph']]
-        where = f'{c["ph"]} FL {fl} (given as {fl} x FL_TO_METERS m) mass {mass} in table FL {fls} (rows listed {c["ord"]}, cruise ROCD residual {c["cz"]})'
+        where = f'{c["ph"]} FL {fl} (given as {fl} x FL_TO_METERS m) mass {mass} in the {c["ph"]} levels {fls} of table FL {c["fls"]} (rows listed {c["ord"]}, cruise ROCD residual {c["cz"]}, cruise lacks {c["cf"]} lowest / descent {c["dt"]} highest levels)'
         try:
             p = pm.evaluate(AircraftState(altitude=fl * FL_TO_METERS, aircraft_mass=mass, true_airspeed=200.0, rate_of_climb=0.0), rule)
             refused = False
